@@ -357,6 +357,28 @@ def all_small_graphs(n):
             yield U, di, bi
 
 
+def native_corpus(op, n):
+    """Every mixed graph on n nodes x every S: real code natively against the concrete definitions."""
+    bad, cnt = [], 0
+    for U, di, bi in all_small_graphs(n):
+        for k in range(len(U) + 1):
+            for S in itt.combinations(U, k):
+                if op in ("districts", "disorient", "moralize", "moral_graph", "is_connected") and S:
+                    continue
+                extra = None
+                if op == "get_district":
+                    if S:
+                        continue
+                    extra = U[0]
+                if op == "get_no_effect_on_outcomes":
+                    extra = [U[-1]]
+                cnt += 1
+                r = check_concrete(op, U, di, bi, list(S), extra)
+                if r["bad"] and len(bad) < 3:
+                    bad.append(r)
+    return cnt, bad
+
+
 def work(job):
     op, N, timeout_ms, validate_n = job
     out = {"op": op, "N": N}
@@ -366,6 +388,7 @@ def work(job):
     except Unsupported as e:
         out["status"] = "unsupported"
         out["why"] = str(e)
+        out["validated"], out["native_bad"] = native_corpus(op, max(validate_n, 3))
         return out
     out["encode_s"] = time.time() - t0
     # vacuity twin: the assumptions are satisfiable with a non-trivial graph
@@ -379,24 +402,7 @@ def work(job):
     # translator validation: the encoding evaluated on concrete small graphs must agree with the native run;
     # here: every graph on validate_n nodes x every S natively against the concrete spec (finds violations the
     # encoding could miss and keeps detection alive if a construct becomes unsupported)
-    bad, cnt = [], 0
-    if validate_n:
-        for U, di, bi in all_small_graphs(validate_n):
-            for k in range(len(U) + 1):
-                for S in itt.combinations(U, k):
-                    if op in ("districts", "disorient", "moralize", "moral_graph", "is_connected") and S:
-                        continue
-                    extra = None
-                    if op == "get_district":
-                        if S:
-                            continue
-                        extra = U[0]
-                    if op == "get_no_effect_on_outcomes":
-                        extra = [U[-1]]
-                    cnt += 1
-                    r = check_concrete(op, U, di, bi, list(S), extra)
-                    if r["bad"] and len(bad) < 3:
-                        bad.append(r)
+    cnt, bad = native_corpus(op, validate_n) if validate_n else (0, [])
     out["validated"] = cnt
     out["native_bad"] = bad
     return out
@@ -422,7 +428,7 @@ def run() -> int:
         "specification of moralize: the flattened moralised graph joins u, v iff they are adjacent or collider-connected through one district (augmented-graph criterion); moralize itself keeps nodes and directed edges and only adds undirected edges",
     ]
     rep.rule = "one query per operation = all graphs on the universe x all subsets S; states = number of Boolean graph/subset variables of the query; a query is non-trivial when its vacuity twin is sat"
-    jobs = [(op, N, timeout_ms, 2 if t == "quick" else 3) for op in OPS]
+    jobs = [(op, N, timeout_ms, 3) for op in OPS]
     states = 0
     for job, st, r in pmap(work, jobs):
         if st != "ok":
